@@ -114,6 +114,11 @@ def rand_input(rng, ftype, n, z0):
     if how < 2:
         s = (rng.standard_normal((n, n)) + 1j * rng.standard_normal((n, n))) \
             * rng.uniform(0.1, 0.8)
+        if ftype == "S" and n >= 2 and rng.random() < 0.1:
+            # one-way devices (ideal isolator, unilateral amplifier): one
+            # transmission term is exactly zero
+            i, j = [int(x) for x in rng.choice(n, 2, replace=False)]
+            s[i, j] = 0.0
         if ftype == "S":
             return s
         try:
